@@ -127,7 +127,7 @@ let zdump (g : z geomT) : string =
    arithmetic instead of fractions in the extracted model). ---- *)
 let rec pow2_log = function XH -> 0 | XO p -> 1 + pow2_log p | XI _ -> failwith "denominator is not a power of two"
 
-let map_vtx f v = { vx = f v.vx; vy = f v.vy; vz = f v.vz; vm = f v.vm }
+let map_vtx f v = { v with vx = f v.vx; vy = f v.vy }   (* X and Y only: Z/M are not read by the model *)
 let map_point f (MkPoint (ct, c)) = MkPoint (ct, (match c with None -> None | Some v -> Some (map_vtx f v)))
 let map_line f (MkLine (ct, vs)) = MkLine (ct, List.map (map_vtx f) vs)
 let map_poly f (MkPoly (ct, rs)) = MkPoly (ct, List.map (map_line f) rs)
@@ -143,7 +143,12 @@ let rec map_geom f = function
 let iter_ords (f : q -> unit) (g : q geomT) : unit =
   ignore (map_geom (fun x -> f x; x) g)
 
-(* returns k and the scaled geometries *)
+(* returns k and the geometries scaled by 2^k (k may be negative: a common factor 2^-k of all
+   ordinates is divided out, so that a lattice case scaled by a power of two comes back as the
+   lattice case) *)
+let rec trailing_zeros = function XO p -> 1 + trailing_zeros p | _ -> 0
+let rec shift_right p n = if n = 0 then p else (match p with XO q -> shift_right q (n - 1) | _ -> failwith "shift_right")
+
 let scale_to_integers (gs : q geomT list) : int * q geomT list =
   let k = ref 0 in
   List.iter (iter_ords (fun x -> k := max !k (pow2_log x.qden))) gs;
@@ -154,6 +159,15 @@ let scale_to_integers (gs : q geomT list) : int * q geomT list =
     let num = match x.qnum with
       | Z0 -> Z0 | Zpos p -> Zpos (shift_pos p sh) | Zneg p -> Zneg (shift_pos p sh) in
     { qnum = num; qden = XH } in
-  (k, List.map (map_geom shift) gs)
+  let gs = List.map (map_geom shift) gs in
+  (* common power of two of all non-zero X/Y numerators (Z and M are carried along) *)
+  let tz = ref max_int in
+  let see x = match x.qnum with Z0 -> () | Zpos p | Zneg p -> tz := min !tz (trailing_zeros p) in
+  List.iter (fun g -> ignore (map_geom (fun x -> see x; x) g)) gs;
+  let tz = if !tz = max_int then 0 else !tz in
+  let unshift x = match x.qnum with
+    | Z0 -> x | Zpos p -> { x with qnum = Zpos (shift_right p tz) } | Zneg p -> { x with qnum = Zneg (shift_right p tz) } in
+  (k - tz, List.map (map_geom unshift) gs)
 
-let q_pow2 (k : int) : q = { qnum = Zpos (pow2_pos k); qden = XH }
+let q_pow2 (k : int) : q =
+  if k >= 0 then { qnum = Zpos (pow2_pos k); qden = XH } else { qnum = Zpos XH; qden = pow2_pos (- k) }
